@@ -180,8 +180,12 @@ def all_events(st):
 def install(reg, schema):
     """Register `create_sqlite_connection` (and its usual alias) as returning a modelled connection."""
     from .contract import Contract
+    merged = getattr(reg, "sql_schema", None)
+    if merged is None:
+        merged = reg.sql_schema = {}
+    merged.update(schema)
 
     def handler(eng, st, recv, args, kwargs):
-        return [(OK, st, ConnNative(schema))]
+        return [(OK, st, ConnNative(merged))]
     reg.add(Contract(key="pynenc.util.sqlite_utils:create_sqlite_connection", handler=handler, assumed=True,
                      note="sqlite connection wrapper: context manager; execute/commit are recorded as trace events"))
